@@ -470,6 +470,12 @@ def _binop(name, a, b, t):
 
 
 # ------------------------------------------------------------------------------ views
+DEFER_SAFETY = False      # set by harnesses that run if-converted kernels and add SAFETY to their claim
+NOCHECK = 0               # >0 while the old value of an if-converted assignment target is read
+GUARDS = []               # symbolic guards of the if-converted branches being evaluated
+SAFETY = []               # deferred obligations: guards -> index in bounds
+
+
 class View:
     """typed memoryview / C array of concrete shape; elements are CInt (or any value for object views)"""
 
@@ -516,6 +522,13 @@ class View:
             if not isinstance(neg, bool) and bool(neg) or neg is True:
                 idx = idx + n
         inb = (idx >= 0) & (idx < n) if not isinstance(idx >= 0, bool) else ((idx >= 0) and (idx < n))
+        if DEFER_SAFETY and NOCHECK and not isinstance(inb, bool):
+            return idx          # reading the previous value for an if-converted store: not an access of the program
+        if DEFER_SAFETY and GUARDS and not isinstance(inb, bool):
+            # if-converted code: the access only happens where the guards hold; the bounds condition becomes a proof
+            # obligation of the harness (guards -> in bounds) instead of a fork
+            SAFETY.append(z3.Implies(z3.And(*[g.e for g in GUARDS]), inb.e))
+            return idx
         ok = inb if isinstance(inb, bool) else bool(inb)
         if not ok:
             if self.boundscheck:
@@ -677,6 +690,10 @@ def _merge(cond, a, b):
         return SInt.mk(z3.If(c, SInt.of(a), SInt.of(b)))
     if a is b:
         return a
+    if hasattr(a, "merged") and type(a) is type(b):      # C floating point values (vf/kx/fp.py, vf/kx/rat.py)
+        m = a.merged(c, b)
+        if m is not None:
+            return m
     # fall back to forking
     return a if bool(cond) else b
 
